@@ -70,11 +70,26 @@ def judge_body(body, off, key, comps, ciph):
     return None, fs
 
 
-def judge_case(cm, comps, key, off, mode, ciph, blocks=()):
-    """mode: 'binary' | 'text' | 'bec2' | 'bec2text'; runs the implementation (with whatever plug-in
-    is registered) and evaluates the property; returns (violation or None, body or None, fields)"""
-    from bec2format.bec2file import Bec2File, UnknownAuthBlock, UpdateAuthBlock
-    f = B.build(cm, comps)
+def comps_of(f):
+    """the current content of a (possibly long-lived, edited) Bf3File object"""
+    return [(dict(c.description), bytes(c.blob), c.actual_len, bool(c.encrypt_by_session_key)) for c in f.components]
+
+
+def make_block(t, v):
+    from bec2format.bec2file import UnknownAuthBlock, UpdateAuthBlock
+    return UpdateAuthBlock(v[:8].ljust(8, b"\1"), len(v) % 256) if t == 2 else UnknownAuthBlock(t, v)
+
+
+def make_bec(f, blocks, key):
+    from bec2format.bec2file import Bec2File
+    return Bec2File(f, [make_block(t, v) for t, v in blocks], key)
+
+
+def write_and_judge(f, bec, key, off, mode, ciph, blocks=()):
+    """one write of the object f (through bec for the BEC2 modes) in its CURRENT state, judged against
+    that state.  mode: 'binary' | 'text' | 'bec2' | 'bec2text'.  Returns (violation or None, body, fields)"""
+    cm = dict(f.comments)
+    comps = comps_of(f)
     if mode == "binary":
         w = run_impl(f.to_binary, off, key)
         if w[0] != "ok":
@@ -94,10 +109,7 @@ def judge_case(cm, comps, key, off, mode, ciph, blocks=()):
         why, fs = judge_body(binary[5:], 5, key, comps, ciph)
         return why, binary[5:], fs
     # BEC2 framing
-    abs_ = []
-    for t, v in blocks:
-        abs_.append(UpdateAuthBlock(v[:8].ljust(8, b"\1"), len(v) % 256) if t == 2 else UnknownAuthBlock(t, v))
-    bec = Bec2File(f, abs_, key)
+    bec.session_key = key
     if mode == "bec2":
         w = run_impl(bec.to_binary)
     else:
@@ -132,6 +144,130 @@ def judge_case(cm, comps, key, off, mode, ciph, blocks=()):
         return "authentication header is not the serialisation of its blocks", None, None
     why, fs = judge_body(binary[hdr_end:], hdr_end, key, comps, ciph)
     return why, binary[hdr_end:], fs
+
+
+def judge_case(cm, comps, key, off, mode, ciph, blocks=()):
+    """a fresh object written once"""
+    f = B.build(cm, comps)
+    bec = make_bec(f, blocks, key) if mode.startswith("bec2") else None
+    return write_and_judge(f, bec, key, off, mode, ciph, blocks)
+
+
+# ---- object histories: one long-lived object, written several times with edits in between ----
+
+def gen_op(r, f, with_bec):
+    """a random edit of the live object, as a JSON-able list"""
+    n = len(f.components)
+    kinds = ["add_tag", "del_tag", "resize_tag", "append_comp", "del_comp", "swap_comps", "set_comment", "del_comment",
+             "set_config", "add_tag", "resize_tag", "append_comp"]
+    if with_bec:
+        kinds.append("add_block")
+    for _ in range(20):
+        k = r.choice(kinds)
+        if k in ("add_tag", "del_tag", "resize_tag") and n:
+            ci = r.randrange(n)
+            d = f.components[ci].description
+            if k == "add_tag":
+                free = [t for t in B.TAG_IDS if t not in d and t != 0xC2]
+                if free:
+                    return [k, ci, r.choice(free), bytes(r.randrange(256) for _ in range(r.choice([0, 1, 2, 5, 30])))]
+            else:
+                ids = [t for t in d if t != 0xC2]
+                if ids:
+                    t = r.choice(ids)
+                    if k == "del_tag":
+                        return [k, ci, t]
+                    ln = r.choice([x for x in (0, 1, 2, 3, 7, 40) if x != len(d[t])])
+                    return [k, ci, t, bytes(r.randrange(256) for _ in range(ln))]
+        if k == "append_comp" and n < 6:
+            d, b, a, e = B.gen_comp(r, enc=r.random() < 0.15)
+            return [k, {str(t): v for t, v in d.items()}, b, a, e, r.randrange(n + 1)]
+        if k == "del_comp" and n:
+            return [k, r.randrange(n)]
+        if k == "swap_comps" and n > 1:
+            i, j = r.sample(range(n), 2)
+            return [k, i, j]
+        if k == "set_comment":
+            return [k, r.choice(["k", "Name", "x y"]), r.choice(["", "v", "a: b", "longer value 123"])]
+        if k == "del_comment" and f.comments:
+            return [k, r.choice(list(f.comments))]
+        if k == "set_config":
+            return [k, [[r.choice([0x0101, 0x0202, 0x0620]), r.randrange(1, 6), bytes(r.randrange(256) for _ in range(r.choice([0, 1, 4, 20])))]
+                        for _ in range(r.choice([1, 2, 4]))]]
+        if k == "add_block":
+            t = r.choice([4, 5, 0x7F, 0xFF])
+            return [k, t, bytes(r.randrange(256) for _ in range(r.choice([0, 1, 16, 100])))]
+    return ["set_comment", "k", "v"]
+
+
+def _b(x):
+    return bytes.fromhex(x["hex"]) if isinstance(x, dict) else x
+
+
+def apply_op(f, bec, blocks, op):
+    from bec2format.bf3file import Bf3Component
+    k = op[0]
+    if k in ("add_tag", "resize_tag"):
+        f.components[op[1]].description[op[2]] = _b(op[3])
+    elif k == "del_tag":
+        del f.components[op[1]].description[op[2]]
+    elif k == "append_comp":
+        f.components.insert(op[5], Bf3Component({int(t): _b(v) for t, v in op[1].items()}, _b(op[2]), op[3], op[4]))
+    elif k == "del_comp":
+        del f.components[op[1]]
+    elif k == "swap_comps":
+        f.components[op[1]], f.components[op[2]] = f.components[op[2]], f.components[op[1]]
+    elif k == "set_comment":
+        f.comments[op[1]] = op[2]
+    elif k == "del_comment":
+        f.comments.pop(op[1], None)
+    elif k == "set_config":
+        f.set_config({(c[0], c[1]): _b(c[2]) for c in op[1]})
+    elif k == "add_block":
+        bec.add_auth_block(make_block(op[1], _b(op[2])))
+        d = dict(blocks)
+        d[op[1]] = _b(op[2])
+        blocks[:] = list(d.items())
+
+
+def gen_history(r, modes, offsets):
+    """(comments, comps, blocks, steps): steps alternate ['write', mode, off, key] and edit operations"""
+    cm, comps = B.gen_file(r, enc_prob=0.15)
+    with_bec = any(m.startswith("bec2") for m in modes)
+    blocks = gen_blocks(r) if with_bec else []
+    f = B.build(cm, comps)                  # scratch object only used to generate applicable edits
+    bec = make_bec(f, blocks, bytes(16)) if with_bec else None
+    bl = list(dict(blocks).items())
+    steps = []
+    key = B.rkey(r)
+    for w in range(r.choice([2, 3, 3, 4])):
+        if r.random() < 0.5:
+            key = B.rkey(r)
+        mode = r.choice(modes)
+        steps.append(["write", mode, r.choice(offsets) if mode == "binary" else 5, key])
+        for _ in range(r.choice([1, 1, 2, 3])):
+            op = gen_op(r, f, with_bec)
+            apply_op(f, bec, bl, op)
+            steps.append(op)
+    steps.append(["write", r.choice(modes), r.choice(offsets), key])
+    return cm, comps, blocks, steps
+
+
+def run_history(cm, comps, blocks, steps, ciph):
+    """replays a history on ONE live object; yields (write number, step, violation, body, fields, off, key) per write"""
+    f = B.build(cm, comps)
+    with_bec = any(s[0] == "write" and s[1].startswith("bec2") for s in steps) or any(s[0] == "add_block" for s in steps)
+    bec = make_bec(f, blocks, bytes(16)) if with_bec else None
+    bl = list(dict(blocks).items())
+    n = 0
+    for st in steps:
+        if st[0] == "write":
+            n += 1
+            mode, off, key = st[1], st[2], _b(st[3])
+            why, body, fs = write_and_judge(f, bec, key, off, mode, ciph, bl)
+            yield n, st, why, body, fs, (off if mode == "binary" else None), key
+        else:
+            apply_op(f, bec, bl, st)
 
 
 def jcomps(comps):
@@ -183,6 +319,20 @@ def correspondence(ctx):
             if i == 2:
                 ctx.sample({"components": jcomps(comps), "key": key, "off": off, "bytes": body[:120],
                             "fields": [{k: v for k, v in f.items() if k != "payload"} for f in fs]})
+        # object histories: one live object, written 2-5 times with edits in between (binary writes here)
+        for i in range(ctx.budget(25, 400) * (4 if ctx.brokens else 1)):
+            cm, comps, blocks, steps = gen_history(r, ["binary"], OFFSETS[:7])
+            ctx.dist["history:writes=%d" % sum(1 for s in steps if s[0] == "write")] += 1
+            for n, st, why, body, fs, off, key in run_history(cm, comps, blocks, steps, ciph):
+                ctx.case(("hist", repr(comps), repr(steps), n), trivial=False)
+                if why:
+                    ctx.fail("bf3-layout", {"comments": cm, "comps": jcomps(comps), "blocks": [], "steps": steps, "mode": "history",
+                                            "cipher": "toy", "write": n}, "write %d of one object (%r): %s" % (n, st[1:3], why))
+                    break
+                if body is not None and n > 1:
+                    exprs.append("res_eqb (list_eqb fr_eqb) (check_layout toy_mac %s %s %s) (Ok %s)" % (
+                        qN(off), qbytes(key), qbytes(body), qfields(fs)))
+                    descr.append(("check_layout(history write %d)" % n, comps, key, off, body))
         # TLV authentication header of the specification against the implementation
         from bec2format.bec2file import Bec2File, UnknownAuthBlock
         from bec2format.bytes_reader import BytesReader
@@ -250,6 +400,18 @@ def search(ctx):
     run({}, many, B.rkey(r), 65535, "binary")
     run({}, [({0xC3: b"\x02"}, bytes(r.randrange(256) for _ in range(70001)), 65537, False),
              ({}, b"tail", None, False)], B.rkey(r), 5, "binary")
+    # object histories: one live Bf3File / Bec2File, written 2-5 times with edits in between
+    for i in range(ctx.budget(60, 1200) * (4 if ctx.brokens else 1)):
+        modes = (["binary", "text"], ["binary"], ["bec2", "bec2text", "binary", "text"], ["bec2"])[i % 4]
+        cm, comps, blocks, steps = gen_history(r, modes, OFFSETS[:7])
+        for wn, st, why, body, fs, off, key in run_history(cm, comps, blocks, steps, ciph):
+            ctx.case(("hist", repr(comps), repr(steps), wn), trivial=False)
+            ctx.dist["search:history:" + st[1]] += 1
+            if why:
+                ctx.fail("bf3-layout", {"comments": cm, "comps": jcomps(comps), "blocks": [[t, v] for t, v in blocks], "steps": steps,
+                                        "mode": "history", "cipher": "aes", "write": wn},
+                         "write %d of one object (%r): %s" % (wn, st[1:3], why))
+                break
     for i in range(n):
         cm, comps = B.gen_file(r, enc_prob=0.15)
         key = B.rkey(r)
@@ -264,7 +426,10 @@ def search(ctx):
                          "implementation's bytes = fields found by the independent Python parser; TLV header serialiser/parser "
                          "= pack_auth_blocks/unpack_auth_blocks. Search (real pyaes plug-in, independent block-wise AES-CBC-MAC): "
                          "independent parse gives the file's fields, independent serialisation gives the same bytes, text is "
-                         "'k: v' lines + blank + upper-case hex in 80-column lines. non-trivial = at least one component / block")
+                         "'k: v' lines + blank + upper-case hex in 80-column lines. Object histories: one live Bf3File/Bec2File "
+                         "written 2-5 times (binary/text/BEC2, offset and key changing) with edits in between (tag added/removed/"
+                         "resized, component inserted/removed/swapped, comments, set_config, auth block added), every write judged "
+                         "against the object's state at that moment. non-trivial = at least one component / block")
 
 
 def replay(ctx, data):
@@ -277,6 +442,19 @@ def replay(ctx, data):
                      for c in d["comps"]]
             key = bytes.fromhex(d["key"]["hex"])
             blocks = [(t, bytes.fromhex(v["hex"])) for t, v in d.get("blocks", [])]
+            if d.get("mode") == "history":
+                def go(ciph):
+                    bad = False
+                    for n, st, why, body, fs, off, k2 in run_history(d["comments"], comps, blocks, d["steps"], ciph):
+                        print(" write %d %r -> %s" % (n, st[1:3], why or "layout ok"))
+                        bad |= bool(why)
+                    return bad
+                if d.get("cipher") == "toy":
+                    with toycipher.registered():
+                        rc |= go(L.toy())
+                else:
+                    rc |= go(L.real_aes())
+                continue
             if d.get("cipher") == "toy":
                 with toycipher.registered():
                     why, body, _ = judge_case(d["comments"], comps, key, d["off"], d["mode"], L.toy(), blocks)
